@@ -10,6 +10,7 @@ package main
 
 import (
 	"encoding/json"
+	"errors"
 	"flag"
 	"fmt"
 	"os"
@@ -25,6 +26,7 @@ import (
 	"verif/harness/internal/casefile"
 	"verif/harness/internal/fracbuild"
 	"verif/harness/internal/rng"
+	"verif/harness/internal/storectl"
 )
 
 // ---------------------------------------------------------------- Coq rendering
@@ -396,7 +398,82 @@ type histResult struct {
 	obs   []Obs
 	dump  *frac.VerifC17State
 	err   string
-	fatal string
+	fatal string // panic in the goroutine applying the history (recovered)
+	crash string // the store process died (panic in a background goroutine, logger.Fatal)
+}
+
+// wire form of a histResult between the storectl child and the driver
+type histWire struct {
+	Obs   []Obs               `json:"obs"`
+	Dump  *frac.VerifC17State `json:"dump,omitempty"`
+	Err   string              `json:"err,omitempty"`
+	Fatal string              `json:"fatal,omitempty"`
+}
+
+const opHistory = "c17-history"
+
+func init() {
+	// executed in the child: the whole history runs on a real store inside the child process
+	storectl.Register(opHistory, func(_ *storectl.Child, r storectl.Req) (storectl.Resp, error) {
+		var h History
+		if err := json.Unmarshal(r.Extra, &h); err != nil {
+			return storectl.Resp{}, err
+		}
+		res := runHistory(h)
+		b, err := json.Marshal(histWire{Obs: res.obs, Dump: res.dump, Err: res.err, Fatal: res.fatal})
+		if err != nil {
+			return storectl.Resp{}, err
+		}
+		return storectl.Resp{Extra: b}, nil
+	})
+}
+
+// worker owns one child process; the child is replaced when it died and recycled after a number
+// of histories (every restart inside a history leaves the previous manager's files open).
+type worker struct {
+	st *storectl.Store
+	n  int
+}
+
+func (wk *worker) stop() {
+	if wk.st != nil {
+		wk.st.Close()
+		wk.st = nil
+	}
+	wk.n = 0
+}
+
+func (wk *worker) run(h History) (res histResult) {
+	res.h = h
+	if wk.st == nil {
+		st, err := storectl.Start("")
+		if err != nil {
+			panic(err)
+		}
+		wk.st = st
+	}
+	hb, _ := json.Marshal(h)
+	resp, err := wk.st.Call(storectl.Req{Op: opHistory, Extra: hb})
+	if err != nil {
+		if errors.Is(err, storectl.ErrDied) {
+			res.crash = err.Error()
+			wk.st.Kill()
+			wk.stop()
+			return
+		}
+		res.err = "driver protocol: " + err.Error()
+		return
+	}
+	var hw histWire
+	if err := json.Unmarshal(resp.Extra, &hw); err != nil {
+		res.err = "driver protocol: " + err.Error()
+		return
+	}
+	res.obs, res.dump, res.err, res.fatal = hw.Obs, hw.Dump, hw.Err, hw.Fatal
+	if wk.n++; wk.n >= 150 {
+		wk.stop()
+	}
+	return
 }
 
 func runHistory(h History) (res histResult) {
@@ -565,6 +642,11 @@ func coqDump(st *frac.VerifC17State) (string, error) {
 
 func emitHistory(w *casefile.Writer, res histResult) {
 	h := res.h
+	if res.crash != "" {
+		w.Violate("history-crash", "the store process died while a history of bulks was applied (panic in a background "+
+			"goroutine or Fatal): "+crashLine(res.crash), h)
+		return
+	}
 	if res.fatal != "" {
 		w.Violate("history-panic", "the store panicked while a history of bulks was applied: "+res.fatal, h)
 		return
@@ -631,9 +713,50 @@ func emitHistory(w *casefile.Writer, res histResult) {
 	w.Add(term, "history-"+h.Mode, repeats > 0 && repeats < total, h, map[string]any{"obs": res.obs, "dump": res.dump})
 }
 
+// probeNewToken is one deliberate history outside the property's quantifier (a re-delivery of
+// the same bytes carries the same tokens): a known ID arrives again with a token that is new to
+// the fraction. The repeat is dropped, but its token is entered into the token list with an
+// empty posting list. Reported under its own narrow class; when the store answers, the history
+// is an ordinary case (first delivery wins, the new token selects nothing).
+func probeNewToken(w *casefile.Writer) {
+	a := Doc{MID: 1039, RID: 1, Var: 0, Pad: 4, Toks: []int{tokAll}}
+	a2 := a
+	a2.Toks = []int{tokenCode("k:a"), tokAll}
+	h := History{Mode: "probe-new-token", DumpAt: -1, ObsAt: []int{2, 3},
+		Steps: []Step{{Kind: "bulk", Docs: []Doc{a}}, {Kind: "bulk", Docs: []Doc{a2}}, {Kind: "seal"}}}
+	wk := &worker{}
+	res := wk.run(h)
+	wk.stop()
+	w.Count("probe:repeat-new-token")
+	if msg := res.crash + res.fatal + res.err; msg != "" {
+		if res.crash != "" {
+			msg = crashLine(res.crash)
+		}
+		w.Violate("repeat-new-token-empty-posting", "a known ID re-delivered with a token new to the fraction leaves that "+
+			"token with an empty posting list; observed: "+msg, h)
+		return
+	}
+	emitHistory(w, res)
+}
+
+// crashLine extracts the panic / fatal message and the first frames from a dead child's stderr.
+func crashLine(s string) string {
+	for _, key := range []string{"panic:", "fatal error:", `"level":"fatal"`, `"level":"panic"`} {
+		if i := strings.LastIndex(s, key); i >= 0 {
+			s = s[i:]
+			break
+		}
+	}
+	if len(s) > 700 {
+		s = s[:700]
+	}
+	return s
+}
+
 // ---------------------------------------------------------------- main
 
 func main() {
+	storectl.MaybeChild()
 	if len(os.Args) > 1 && os.Args[1] == "-explore" {
 		explore()
 		return
@@ -677,13 +800,15 @@ func main() {
 			fmt.Fprintln(os.Stderr, "replay file holds no history (collector cases are replayed by seed)")
 			os.Exit(2)
 		}
-		emitHistory(w, runHistory(h))
+		wk := &worker{}
+		emitHistory(w, wk.run(h))
+		wk.stop()
 		w.Close()
 		return
 	}
 	nColl, nHist := 600, 330
 	if *tier == "thorough" {
-		nColl, nHist = 12000, 2500
+		nColl, nHist = 12000, 6000
 	}
 	r := rng.New(*seed)
 	collectorCases(w, r.Fork(), nColl)
@@ -696,20 +821,27 @@ func main() {
 	}
 	results := make([]histResult, nHist)
 	var wg sync.WaitGroup
-	sem := make(chan struct{}, 6)
-	for i := range hs {
+	next := make(chan int)
+	for k := 0; k < 6; k++ {
 		wg.Add(1)
-		sem <- struct{}{}
-		go func(i int) {
+		go func() {
 			defer wg.Done()
-			defer func() { <-sem }()
-			results[i] = runHistory(hs[i])
-		}(i)
+			wk := &worker{}
+			defer wk.stop()
+			for i := range next {
+				results[i] = wk.run(hs[i])
+			}
+		}()
 	}
+	for i := range hs {
+		next <- i
+	}
+	close(next)
 	wg.Wait()
 	for _, res := range results {
 		emitHistory(w, res)
 	}
+	probeNewToken(w)
 	w.Extra["seconds"] = time.Since(t0).Seconds()
 	if err := w.Close(); err != nil {
 		panic(err)
